@@ -129,6 +129,16 @@ Definition mdefault_ok (m : mdefault) : bool :=
   | UEscapes => Nat.ltb 0 (m_calls m) && Nat.eqb (m_calls m) (m_explicit m)
   end.
 
+(* optimiser start vectors: optimize.py obj_fcn_dec writes every trial point INTO the x0 array it was given
+   (x0[idx_opt] = x), so an x0 that outlives the call would carry one fit's last trial point into the next *)
+Inductive x0kind :=
+| XFresh      (* built by the call expression itself, or a local assigned only from such expressions *)
+| XParam      (* a parameter of the enclosing function *)
+| XShared     (* an attribute, a module-level or closure object *)
+| XOther.
+Definition x0_ok (x : string * string * string * x0kind) : bool :=
+  match snd x with XFresh => true | _ => false end.
+
 (* NLopt algorithms that draw random numbers (and would need nlopt.srand): the daily defaults must not be among them *)
 Definition stochastic_nlopt : list string :=
   ["nlopt_direct_l_rand"; "nlopt_direct_l_rand_noscal"; "nlopt_crs2_lm"; "nlopt_mlsl"; "nlopt_mlsl_lds";
